@@ -102,6 +102,17 @@ def check_eq(item):
                           detail=f"== is isinstance(other, {ci.name}) and equality of {sorted(compared)} on both sides "
                                  f"(an equivalence relation)", reason="; ".join(bad),
                           witness={"family": "call", "oracle": "eq_laws", "args": [name]}))
+    # symmetry: a == b and b == a are the same formula (both operands of the same class)
+    exs, outs_ab, fis = run_eq(ci, "__eq__")
+    a_, b_ = Obj(exs.path_obj["self"]), Obj(exs.path_obj["other"])
+    outs_ba = exs.explore(lambda: exs.call_function(fis, [b_, a_], {}, b_))
+    fab, fba = formula_of(exs, outs_ab), formula_of(exs, outs_ba)
+    if fab is not None and fba is not None:
+        sym = exs.smt.check([], z3.Xor(fab, fba)) == "unsat"
+        obs.append(Obligation(PROP, f"{fis.short}@{name}|eq/sym", "eq/sym", fis.short, PROVED if sym else REFUTED,
+                              detail="(a == b) == (b == a) for two objects of the class",
+                              reason="" if sym else f"a == b: {fab}; b == a: {fba}"[:600],
+                              witness={"family": "call", "oracle": "eq_laws", "args": [name]}))
     # __ne__
     if ci.resolve("__ne__") and ci.resolve("__ne__")[0] == "func" and ci.resolve("__ne__")[1].cls is not None and \
             ci.resolve("__ne__")[1].cls.name not in ("Term",):
